@@ -54,6 +54,14 @@ CHECKS = {
          "Held on every explored tree / history: every Ok serialisation (documents, fragments, inner elements, parentless clones of trees with arbitrary declared / undeclared namespaces) is read by an independent XML reader and every element and attribute name must resolve to the node's expanded name; histories of edits alternating with create_missing_prefixes must leave content, handles and existing declarations untouched and make the target serialise, mean the same and reparse deep-equal, round after round; exploration, not proof.",
          "Plain text content so that only namespace aspects vary; one open finding (no-namespace element under a default binding) suppressed by exact signature.",
          "independent reader of the emitted text + before/after read-back"),
+ "C14": ("DESIGN.md §5 C14, Appendix C",
+         "Held on every explored (tree, parameters) pair: serialisation with random subsets of element names as CDATA-section elements / suppress list, unescaped_gt, declaration variants and indentation on/off is reparsed; without indentation the tree must be deep-equal, with indentation a whitespace diff must find only added whitespace-only text nodes, none inside mixed content, xml:space=preserve scope or suppressed elements; text concentrates on ']' '>' runs, CR/LF/TAB; exploration, not proof.",
+         "Trees restricted to the XML-representable domain without the open F29 trigger; the indentation clause is judged on well-formed documents and element subtrees only.",
+         "reparse + whitespace-diff oracle"),
+ "C16": ("DESIGN.md §5 C16, Appendix C",
+         "Held on every explored (tree, parameters) pair: concatenated tokens, pretty tokens with their layout fields applied, serialize_xml_write into two kinds of writers and write() are compared byte for byte with the string API, and outputs() with the event sequence derived from the abstract tree and a scope model; exploration, not proof.",
+         "Serialisable trees only (tokens() unwraps).",
+         "byte-equality and event-grammar oracle"),
  "C15": ("DESIGN.md §5 C15",
          "Held on every explored tree: after deduplicate_namespaces on trees with redundant / shadowing declaration layouts names, attributes, content and handles are unchanged, each declaration list is a subsequence of the old one, a tree that serialised before still serialises to text meaning the same (independent reader), and a second call changes nothing; exploration, not proof.",
          "The serialisation clause is not judged on trees that already contain the open finding's trigger (no-namespace element under a default binding).",
